@@ -7,4 +7,5 @@ MCNoRemoveOwn == AllFixes \ {"removeOwn"}
 MCNoCloseMismatch == AllFixes \ {"closeMismatch"}
 MCNoSshRemoveDead == AllFixes \ {"sshRemoveDead"}
 MCNoSshCloseLoser == AllFixes \ {"sshCloseLoser"}
+MCNoSshCloseAll == AllFixes \ {"sshCloseAll"}
 =============================================================================
